@@ -1,4 +1,6 @@
 CONSTANTS
+  FixIterShort = TRUE
+  FixDataSlice = TRUE
   Caps = {0, 1, 8, 15, 16, 17, 23, 24, 25, 31, 32, 33, 39, 40, 41, 47, 48, 49, 55, 56, 63, 64, 65, 72, 80, 88, 96, 104, 112, 120, 128}
   Sizes = {0, 1, 2, 3, 4, 7, 8, 9, 12, 15, 16, 17, 20, 24}
   MaxMsgs = 4
